@@ -71,9 +71,9 @@ def knownFallbackSites : List (String × String) :=
    ("projection.go", "pathCompositeBinding")]
 
 /-- **alias_key_fallback_sites_known**: the places where a generated identifier is used as an alias key are among these
-seven fallbacks, no new one. Each is an instance of the capture proved possible by `fallback_lookup_captures`; only
-`pathCompositeBinding` is reachable with a binding of the required type (known finding; hooks/C06-fix3.patch removes
-that fallback, after which the list shrinks and this obligation still holds). -/
+seven HISTORICAL fallbacks, no new one. Each was an instance of the capture proved possible by `fallback_lookup_captures`;
+only `pathCompositeBinding` was reachable with a binding of the required type (finding fixed in /repo e63912b). Today the
+list of such sites is empty — `alias_keys_user_only` below is the statement at full strength. -/
 theorem alias_key_fallback_sites_known :
     nonUserAliasKeySites.all (fun s => knownFallbackSites.contains s) = true := by decide
 
@@ -94,13 +94,18 @@ theorem generator_matches_model :
     ∧ generatorDefault.1 = Dawgs.C06.Cls.i.pfx ∧ Dawgs.C06.classOf generatorDefault.2 = Dawgs.C06.Cls.i
     ∧ generatorBumpsByOne = true ∧ generatorRendersPrefixThenCounter = true := by decide
 
-/-- the full T-tie condition: alias keys are user-derived ONLY. Still false while any of the fallbacks exists; it stays a
-`Prop` (an undischarged obligation, not a theorem) until the last fallback is gone. -/
+/-- the full T-tie condition: alias keys are user-derived ONLY -/
 def C06_sites_full : Prop := nonUserAliasKeySites = []
 
-/-- the capture needs a binding of a particular type at six of the seven fallbacks' call sites that the translator cannot
-produce there; whether `pathCompositeBinding` still has it is what the harness's `gen-id-captured-by-path-variable`
-class observes. -/
+/-- **alias_keys_user_only**: `C06_sites_full` holds on the current tree — since /repo e63912b (hooks/C06-fix3.patch) the
+last `Lookup`-then-`AliasedLookup` fallback is gone, so NO call of `AliasedLookup` / `aliases[…]` in package translate has
+a key that is not purely user-derived: a generated identifier is never looked up as if it were a user spelling, which is
+the capture `fallback_lookup_captures` shows to be possible. (Until then this was an open `Prop` bounded by
+`alias_key_fallback_sites_known` / `fallback_sites_bounded`, which stay as the weaker regression guards.) Re-introducing a
+fallback makes this obligation fail. -/
+theorem alias_keys_user_only : C06_sites_full := by unfold C06_sites_full; decide
+
+/-- weaker guard kept from before the fix: at most the seven historical sites -/
 theorem fallback_sites_bounded : nonUserAliasKeySites.length ≤ 7 := by decide
 
 end Dawgs.C06.Sites
